@@ -1,3 +1,31 @@
+/-
+  C08 (dual part) — forward-mode evaluation of the Black–Scholes pricers IS differentiation.
+
+  pfhedge's `autogreek.delta/gamma/vega/theta` differentiate a pricer with torch autograd
+  (`BSLookbackOption` and the default `BSModuleMixin` Greeks are computed that way from the module's
+  own `price`).  The same generic model definition (Model/BS.lean) evaluated at `Dual ℝ`
+  (Inst/Dual.lean) is forward-mode differentiation; the harness compares torch's autogreek results
+  with the model at `Dual Float` (`Dual (Dual Float)` for gamma).
+
+  Method.  `C08DualAux`: carrier-generic closed forms (`d1E`, `euroE`, `binE`, `amE`, `lb0E`, `lb1E`)
+  that the model returns whenever validation passes and the `where` guard is inactive (`Guards`);
+  the guards hold at `ℝ`, `Dual ℝ`, `Dual (Dual ℝ)` when the primal parts of `t`, `v` are positive
+  (comparisons on dual numbers look at the primal part); the closed forms at `Dual ℝ` track the
+  closed forms at `ℝ` by the `Tracks` closure lemmas (Lemmas/DualCalc.lean).  Second order:
+  `Tracks2 DD f θ` (outer-primal part tracks `f`, outer-ε part tracks a local derivative of `f`),
+  with its own closure lemmas obtained from the first-order ones.
+
+  `C08Dual` (property theorems):
+    *_dual_curve            — along any tracked curve of inputs with `t, v > 0`
+    d1/d2_dual_tracks_s/_t/_v, {european,binary,american,lookback}_price_dual_s/_v/_t/_spot
+    {european,binary,american}_autogreek_delta/_vega/_theta, *_dual_s_eps (ε = S·delta)
+                            — ε-parts equal the closed-form Greeks of C08
+    american_price_dual_after_hit, american_autogreek_after_hit — `0 ≤ m`: ε = 0
+    lookback_autogreek_delta/_vega/_theta — ε-part = derivative of the lookback price
+    *_price_dual2_curve/_s/_spot, {european,binary,american}_autogreek_gamma,
+    lookback_autogreek_gamma — `.eps.eps` at `Dual (Dual ℝ)` = second derivative (= closed-form gamma)
+    `example`s              — non-vacuity (concrete values of the ε-parts)
+-/
 import PfVerif.Lemmas.DualCalc
 import PfVerif.Props.C08
 import PfVerif.Props.C09
@@ -326,5 +354,747 @@ theorem lookback_price_dual_curve (hS : Tracks S sf θ) (hT : Tracks T tf θ) (h
     rw [val_lookback hx.1 hx.2, if_neg hb]
 
 end curve
+
+/-! ### one input seeded, the others constants -/
+
+section seeded
+variable {s t v K : ℝ}
+
+/-! #### `d1`, `d2` -/
+
+theorem d1_dual_tracks_s (s : ℝ) (ht : 0 < t) (hv : 0 < v) :
+    ∃ D, bsD1 (⟨s, 1⟩ : Dual ℝ) ⟨t, 0⟩ ⟨v, 0⟩ = .ok D ∧ Tracks D (fun s' => val (bsD1 s' t v)) s :=
+  d1_dual_curve tracks_var' (tracks_const t) (tracks_const v) ht hv
+
+theorem d1_dual_tracks_t (s : ℝ) (ht : 0 < t) (hv : 0 < v) :
+    ∃ D, bsD1 (⟨s, 0⟩ : Dual ℝ) ⟨t, 1⟩ ⟨v, 0⟩ = .ok D ∧ Tracks D (fun t' => val (bsD1 s t' v)) t :=
+  d1_dual_curve (θ := t) (tracks_const s) tracks_var' (tracks_const v) ht hv
+
+theorem d1_dual_tracks_v (s : ℝ) (ht : 0 < t) (hv : 0 < v) :
+    ∃ D, bsD1 (⟨s, 0⟩ : Dual ℝ) ⟨t, 0⟩ ⟨v, 1⟩ = .ok D ∧ Tracks D (fun v' => val (bsD1 s t v')) v :=
+  d1_dual_curve (θ := v) (tracks_const s) (tracks_const t) tracks_var' ht hv
+
+theorem d2_dual_tracks_s (s : ℝ) (ht : 0 < t) (hv : 0 < v) :
+    ∃ D, bsD2 (⟨s, 1⟩ : Dual ℝ) ⟨t, 0⟩ ⟨v, 0⟩ = .ok D ∧ Tracks D (fun s' => val (bsD2 s' t v)) s :=
+  d2_dual_curve tracks_var' (tracks_const t) (tracks_const v) ht hv
+
+theorem d2_dual_tracks_t (s : ℝ) (ht : 0 < t) (hv : 0 < v) :
+    ∃ D, bsD2 (⟨s, 0⟩ : Dual ℝ) ⟨t, 1⟩ ⟨v, 0⟩ = .ok D ∧ Tracks D (fun t' => val (bsD2 s t' v)) t :=
+  d2_dual_curve (θ := t) (tracks_const s) tracks_var' (tracks_const v) ht hv
+
+theorem d2_dual_tracks_v (s : ℝ) (ht : 0 < t) (hv : 0 < v) :
+    ∃ D, bsD2 (⟨s, 0⟩ : Dual ℝ) ⟨t, 0⟩ ⟨v, 1⟩ = .ok D ∧ Tracks D (fun v' => val (bsD2 s t v')) v :=
+  d2_dual_curve (θ := v) (tracks_const s) (tracks_const t) tracks_var' ht hv
+
+/-- the explicit ε-parts: `∂d₁/∂s = 1/(v√t)` -/
+theorem d1_dual_s_explicit (s : ℝ) (ht : 0 < t) (hv : 0 < v) :
+    ∃ D, bsD1 (⟨s, 1⟩ : Dual ℝ) ⟨t, 0⟩ ⟨v, 0⟩ = .ok D ∧ D.val = d1 s (v * Real.sqrt t) ∧
+      D.eps = 1 / (v * Real.sqrt t) := by
+  have hw : (fun _ : ℝ => v * Real.sqrt t) s ≠ 0 := (w_pos ht hv).ne'
+  have h := hasDerivAt_d1 (hasDerivAt_id s) (hasDerivAt_const s (v * Real.sqrt t)) hw
+  obtain ⟨D, h1, h2, h3⟩ := greek_of_tracks (d1_dual_tracks_s s ht hv)
+    (c := 1 / (v * Real.sqrt t)) (by
+      refine (h.congr_deriv (by simp)).congr_of_eventuallyEq (Eventually.of_forall fun s' => ?_)
+      show val (bsD1 s' t v) = _
+      rw [bsD1_ok s' ht hv, val_ok]; rfl)
+  refine ⟨D, h1, ?_, h3⟩
+  rw [h2, bsD1_ok s ht hv, val_ok]
+
+/-! #### European option -/
+
+theorem european_price_dual_s (s K : ℝ) (ht : 0 < t) (hv : 0 < v) (call : Bool) :
+    ∃ D, bsEuropeanPrice (⟨s, 1⟩ : Dual ℝ) ⟨t, 0⟩ ⟨v, 0⟩ ⟨K, 0⟩ call = .ok D ∧
+      Tracks D (fun s' => val (bsEuropeanPrice s' t v K call)) s :=
+  european_price_dual_curve tracks_var' (tracks_const t) (tracks_const v) (tracks_const K) ht hv call
+
+theorem european_price_dual_v (s K : ℝ) (ht : 0 < t) (hv : 0 < v) (call : Bool) :
+    ∃ D, bsEuropeanPrice (⟨s, 0⟩ : Dual ℝ) ⟨t, 0⟩ ⟨v, 1⟩ ⟨K, 0⟩ call = .ok D ∧
+      Tracks D (fun v' => val (bsEuropeanPrice s t v' K call)) v :=
+  european_price_dual_curve (θ := v) (tracks_const s) (tracks_const t) tracks_var' (tracks_const K)
+    ht hv call
+
+theorem european_price_dual_t (s K : ℝ) (ht : 0 < t) (hv : 0 < v) (call : Bool) :
+    ∃ D, bsEuropeanPrice (⟨s, 0⟩ : Dual ℝ) ⟨t, 1⟩ ⟨v, 0⟩ ⟨K, 0⟩ call = .ok D ∧
+      Tracks D (fun t' => val (bsEuropeanPrice s t' v K call)) t :=
+  european_price_dual_curve (θ := t) (tracks_const s) tracks_var' (tracks_const v) (tracks_const K)
+    ht hv call
+
+/-- what `autogreek.delta` does: the spot `⟨S, 1⟩` enters as `log (spot / strike)` -/
+theorem european_price_dual_spot {S : ℝ} (hS : 0 < S) (hK : 0 < K) (ht : 0 < t) (hv : 0 < v)
+    (call : Bool) :
+    ∃ D, bsEuropeanPrice (log ((⟨S, 1⟩ : Dual ℝ) / ⟨K, 0⟩)) ⟨t, 0⟩ ⟨v, 0⟩ ⟨K, 0⟩ call = .ok D ∧
+      Tracks D (fun S' => val (bsEuropeanPrice (Real.log (S' / K)) t v K call)) S :=
+  european_price_dual_curve (tracks_logMoneyness hS hK) (tracks_const t) (tracks_const v)
+    (tracks_const K) ht hv call
+
+/-- autogreek delta = closed-form delta -/
+theorem european_autogreek_delta {S : ℝ} (hS : 0 < S) (hK : 0 < K) (ht : 0 < t) (hv : 0 < v)
+    (call : Bool) :
+    ∃ D, bsEuropeanPrice (log ((⟨S, 1⟩ : Dual ℝ) / ⟨K, 0⟩)) ⟨t, 0⟩ ⟨v, 0⟩ ⟨K, 0⟩ call = .ok D ∧
+      D.val = val (bsEuropeanPrice (Real.log (S / K)) t v K call) ∧
+      D.eps = val (bsEuropeanDelta (Real.log (S / K)) t v call) :=
+  greek_of_tracks (european_price_dual_spot hS hK ht hv call) (C08.european_delta hS hK ht hv call)
+
+/-- seeding the log-moneyness: ε = S · delta (`∂/∂s = S ∂/∂S`, `S = K eˢ`) -/
+theorem european_dual_s_eps (s : ℝ) (hK : 0 < K) (ht : 0 < t) (hv : 0 < v) (call : Bool) :
+    ∃ D, bsEuropeanPrice (⟨s, 1⟩ : Dual ℝ) ⟨t, 0⟩ ⟨v, 0⟩ ⟨K, 0⟩ call = .ok D ∧
+      D.val = val (bsEuropeanPrice s t v K call) ∧
+      D.eps = K * Real.exp s * val (bsEuropeanDelta s t v call) := by
+  refine greek_of_tracks (european_price_dual_s s K ht hv call) (hasDerivAt_of_spot hK ?_)
+  have h := C08.european_delta (S := K * Real.exp s) (mul_pos hK (Real.exp_pos s)) hK ht hv call
+  rwa [log_spot K s hK] at h
+
+/-- autogreek vega = closed-form vega -/
+theorem european_autogreek_vega (s K : ℝ) (ht : 0 < t) (hv : 0 < v) (call : Bool) :
+    ∃ D, bsEuropeanPrice (⟨s, 0⟩ : Dual ℝ) ⟨t, 0⟩ ⟨v, 1⟩ ⟨K, 0⟩ call = .ok D ∧
+      D.val = val (bsEuropeanPrice s t v K call) ∧ D.eps = val (bsEuropeanVega s t v K) :=
+  greek_of_tracks (european_price_dual_v s K ht hv call) (C08.european_vega s ht hv call)
+
+/-- autogreek theta (`−∂price/∂t`) = closed-form theta -/
+theorem european_autogreek_theta (s K : ℝ) (ht : 0 < t) (hv : 0 < v) (call : Bool) :
+    ∃ D, bsEuropeanPrice (⟨s, 0⟩ : Dual ℝ) ⟨t, 1⟩ ⟨v, 0⟩ ⟨K, 0⟩ call = .ok D ∧
+      D.val = val (bsEuropeanPrice s t v K call) ∧ -D.eps = val (bsEuropeanTheta s t v K) := by
+  obtain ⟨D, h1, h2, h3⟩ :=
+    greek_of_tracks (european_price_dual_t s K ht hv call) (C08.european_theta s ht hv call)
+  exact ⟨D, h1, h2, by rw [h3, neg_neg]⟩
+
+/-! #### European binary option -/
+
+theorem binary_price_dual_s (s : ℝ) (ht : 0 < t) (hv : 0 < v) (call : Bool) :
+    ∃ D, bsBinaryPrice (⟨s, 1⟩ : Dual ℝ) ⟨t, 0⟩ ⟨v, 0⟩ call = .ok D ∧
+      Tracks D (fun s' => val (bsBinaryPrice s' t v call)) s :=
+  binary_price_dual_curve tracks_var' (tracks_const t) (tracks_const v) ht hv call
+
+theorem binary_price_dual_v (s : ℝ) (ht : 0 < t) (hv : 0 < v) (call : Bool) :
+    ∃ D, bsBinaryPrice (⟨s, 0⟩ : Dual ℝ) ⟨t, 0⟩ ⟨v, 1⟩ call = .ok D ∧
+      Tracks D (fun v' => val (bsBinaryPrice s t v' call)) v :=
+  binary_price_dual_curve (θ := v) (tracks_const s) (tracks_const t) tracks_var' ht hv call
+
+theorem binary_price_dual_t (s : ℝ) (ht : 0 < t) (hv : 0 < v) (call : Bool) :
+    ∃ D, bsBinaryPrice (⟨s, 0⟩ : Dual ℝ) ⟨t, 1⟩ ⟨v, 0⟩ call = .ok D ∧
+      Tracks D (fun t' => val (bsBinaryPrice s t' v call)) t :=
+  binary_price_dual_curve (θ := t) (tracks_const s) tracks_var' (tracks_const v) ht hv call
+
+theorem binary_price_dual_spot {S : ℝ} (hS : 0 < S) (hK : 0 < K) (ht : 0 < t) (hv : 0 < v)
+    (call : Bool) :
+    ∃ D, bsBinaryPrice (log ((⟨S, 1⟩ : Dual ℝ) / ⟨K, 0⟩)) ⟨t, 0⟩ ⟨v, 0⟩ call = .ok D ∧
+      Tracks D (fun S' => val (bsBinaryPrice (Real.log (S' / K)) t v call)) S :=
+  binary_price_dual_curve (tracks_logMoneyness hS hK) (tracks_const t) (tracks_const v) ht hv call
+
+theorem binary_autogreek_delta {S : ℝ} (hS : 0 < S) (hK : 0 < K) (ht : 0 < t) (hv : 0 < v)
+    (call : Bool) :
+    ∃ D, bsBinaryPrice (log ((⟨S, 1⟩ : Dual ℝ) / ⟨K, 0⟩)) ⟨t, 0⟩ ⟨v, 0⟩ call = .ok D ∧
+      D.val = val (bsBinaryPrice (Real.log (S / K)) t v call) ∧
+      D.eps = val (bsBinaryDelta (Real.log (S / K)) t v K call) :=
+  greek_of_tracks (binary_price_dual_spot hS hK ht hv call) (C08.binary_delta hS hK ht hv call)
+
+theorem binary_dual_s_eps (s : ℝ) (hK : 0 < K) (ht : 0 < t) (hv : 0 < v) (call : Bool) :
+    ∃ D, bsBinaryPrice (⟨s, 1⟩ : Dual ℝ) ⟨t, 0⟩ ⟨v, 0⟩ call = .ok D ∧
+      D.val = val (bsBinaryPrice s t v call) ∧
+      D.eps = K * Real.exp s * val (bsBinaryDelta s t v K call) := by
+  refine greek_of_tracks (binary_price_dual_s s ht hv call) (hasDerivAt_of_spot hK ?_)
+  have h := C08.binary_delta (S := K * Real.exp s) (mul_pos hK (Real.exp_pos s)) hK ht hv call
+  rwa [log_spot K s hK] at h
+
+theorem binary_autogreek_vega (s : ℝ) (hK : 0 < K) (ht : 0 < t) (hv : 0 < v) (call : Bool) :
+    ∃ D, bsBinaryPrice (⟨s, 0⟩ : Dual ℝ) ⟨t, 0⟩ ⟨v, 1⟩ call = .ok D ∧
+      D.val = val (bsBinaryPrice s t v call) ∧ D.eps = val (bsBinaryVega s t v K call) :=
+  greek_of_tracks (binary_price_dual_v s ht hv call) (C08.binary_vega s hK ht hv call)
+
+theorem binary_autogreek_theta (s : ℝ) (hK : 0 < K) (ht : 0 < t) (hv : 0 < v) (call : Bool) :
+    ∃ D, bsBinaryPrice (⟨s, 0⟩ : Dual ℝ) ⟨t, 1⟩ ⟨v, 0⟩ call = .ok D ∧
+      D.val = val (bsBinaryPrice s t v call) ∧ -D.eps = val (bsBinaryTheta s t v K call) := by
+  obtain ⟨D, h1, h2, h3⟩ :=
+    greek_of_tracks (binary_price_dual_t s ht hv call) (C08.binary_theta s hK ht hv call)
+  exact ⟨D, h1, h2, by rw [h3, neg_neg]⟩
+
+/-! #### American binary option (running maximum `m` a constant) -/
+
+variable {m : ℝ}
+
+theorem american_price_dual_s (s : ℝ) (ht : 0 < t) (hv : 0 < v) (hm : m < 0) :
+    ∃ D, bsAmericanBinaryPrice (⟨s, 1⟩ : Dual ℝ) ⟨m, 0⟩ ⟨t, 0⟩ ⟨v, 0⟩ = .ok D ∧
+      Tracks D (fun s' => val (bsAmericanBinaryPrice s' m t v)) s :=
+  american_price_dual_curve tracks_var' (tracks_const t) (tracks_const v) ht hv hm
+
+theorem american_price_dual_v (s : ℝ) (ht : 0 < t) (hv : 0 < v) (hm : m < 0) :
+    ∃ D, bsAmericanBinaryPrice (⟨s, 0⟩ : Dual ℝ) ⟨m, 0⟩ ⟨t, 0⟩ ⟨v, 1⟩ = .ok D ∧
+      Tracks D (fun v' => val (bsAmericanBinaryPrice s m t v')) v :=
+  american_price_dual_curve (θ := v) (tracks_const s) (tracks_const t) tracks_var' ht hv hm
+
+theorem american_price_dual_t (s : ℝ) (ht : 0 < t) (hv : 0 < v) (hm : m < 0) :
+    ∃ D, bsAmericanBinaryPrice (⟨s, 0⟩ : Dual ℝ) ⟨m, 0⟩ ⟨t, 1⟩ ⟨v, 0⟩ = .ok D ∧
+      Tracks D (fun t' => val (bsAmericanBinaryPrice s m t' v)) t :=
+  american_price_dual_curve (θ := t) (tracks_const s) tracks_var' (tracks_const v) ht hv hm
+
+theorem american_price_dual_spot {S : ℝ} (hS : 0 < S) (hK : 0 < K) (ht : 0 < t) (hv : 0 < v)
+    (hm : m < 0) :
+    ∃ D, bsAmericanBinaryPrice (log ((⟨S, 1⟩ : Dual ℝ) / ⟨K, 0⟩)) ⟨m, 0⟩ ⟨t, 0⟩ ⟨v, 0⟩ = .ok D ∧
+      Tracks D (fun S' => val (bsAmericanBinaryPrice (Real.log (S' / K)) m t v)) S :=
+  american_price_dual_curve (tracks_logMoneyness hS hK) (tracks_const t) (tracks_const v) ht hv hm
+
+theorem american_autogreek_delta {S : ℝ} (hS : 0 < S) (hK : 0 < K) (ht : 0 < t) (hv : 0 < v)
+    (hm : m < 0) :
+    ∃ D, bsAmericanBinaryPrice (log ((⟨S, 1⟩ : Dual ℝ) / ⟨K, 0⟩)) ⟨m, 0⟩ ⟨t, 0⟩ ⟨v, 0⟩ = .ok D ∧
+      D.val = val (bsAmericanBinaryPrice (Real.log (S / K)) m t v) ∧
+      D.eps = val (bsAmericanBinaryDelta (Real.log (S / K)) m t v K) :=
+  greek_of_tracks (american_price_dual_spot hS hK ht hv hm)
+    (C08.american_binary_delta hS hK ht hv hm)
+
+theorem american_dual_s_eps (s : ℝ) (hK : 0 < K) (ht : 0 < t) (hv : 0 < v) (hm : m < 0) :
+    ∃ D, bsAmericanBinaryPrice (⟨s, 1⟩ : Dual ℝ) ⟨m, 0⟩ ⟨t, 0⟩ ⟨v, 0⟩ = .ok D ∧
+      D.val = val (bsAmericanBinaryPrice s m t v) ∧
+      D.eps = K * Real.exp s * val (bsAmericanBinaryDelta s m t v K) := by
+  refine greek_of_tracks (american_price_dual_s s ht hv hm) (hasDerivAt_of_spot hK ?_)
+  have h := C08.american_binary_delta (S := K * Real.exp s) (mul_pos hK (Real.exp_pos s)) hK ht hv hm
+  rwa [log_spot K s hK] at h
+
+theorem american_autogreek_vega (s : ℝ) (hK : 0 < K) (ht : 0 < t) (hv : 0 < v) (hm : m < 0) :
+    ∃ D, bsAmericanBinaryPrice (⟨s, 0⟩ : Dual ℝ) ⟨m, 0⟩ ⟨t, 0⟩ ⟨v, 1⟩ = .ok D ∧
+      D.val = val (bsAmericanBinaryPrice s m t v) ∧
+      D.eps = val (bsAmericanBinaryVega s m t v K) :=
+  greek_of_tracks (american_price_dual_v s ht hv hm) (C08.american_binary_vega s hK ht hv hm)
+
+theorem american_autogreek_theta (s : ℝ) (hK : 0 < K) (ht : 0 < t) (hv : 0 < v) (hm : m < 0) :
+    ∃ D, bsAmericanBinaryPrice (⟨s, 0⟩ : Dual ℝ) ⟨m, 0⟩ ⟨t, 1⟩ ⟨v, 0⟩ = .ok D ∧
+      D.val = val (bsAmericanBinaryPrice s m t v) ∧
+      -D.eps = val (bsAmericanBinaryTheta s m t v K) := by
+  obtain ⟨D, h1, h2, h3⟩ :=
+    greek_of_tracks (american_price_dual_t s ht hv hm) (C08.american_binary_theta s hK ht hv hm)
+  exact ⟨D, h1, h2, by rw [h3, neg_neg]⟩
+
+/-- after the hit every autogreek of the American binary is zero (whatever is seeded) -/
+theorem american_autogreek_after_hit (S T V : Dual ℝ) (ht : 0 < T.val) (hv : 0 < V.val)
+    (hm : 0 ≤ m) :
+    ∃ D, bsAmericanBinaryPrice S ⟨m, 0⟩ T V = .ok D ∧ D.val = 1 ∧ D.eps = 0 :=
+  ⟨_, american_price_dual_after_hit ht hv hm, rfl, rfl⟩
+
+/-! #### lookback call (running maximum `m` and strike `K` constants; both branches) -/
+
+theorem lookback_price_dual_s (s m K : ℝ) (ht : 0 < t) (hv : 0 < v) :
+    ∃ D, bsLookbackPrice (⟨s, 1⟩ : Dual ℝ) ⟨m, 0⟩ ⟨t, 0⟩ ⟨v, 0⟩ ⟨K, 0⟩ = .ok D ∧
+      Tracks D (fun s' => val (bsLookbackPrice s' m t v K)) s :=
+  lookback_price_dual_curve tracks_var' (tracks_const t) (tracks_const v) ht hv m K
+
+theorem lookback_price_dual_v (s m K : ℝ) (ht : 0 < t) (hv : 0 < v) :
+    ∃ D, bsLookbackPrice (⟨s, 0⟩ : Dual ℝ) ⟨m, 0⟩ ⟨t, 0⟩ ⟨v, 1⟩ ⟨K, 0⟩ = .ok D ∧
+      Tracks D (fun v' => val (bsLookbackPrice s m t v' K)) v :=
+  lookback_price_dual_curve (θ := v) (tracks_const s) (tracks_const t) tracks_var' ht hv m K
+
+theorem lookback_price_dual_t (s m K : ℝ) (ht : 0 < t) (hv : 0 < v) :
+    ∃ D, bsLookbackPrice (⟨s, 0⟩ : Dual ℝ) ⟨m, 0⟩ ⟨t, 1⟩ ⟨v, 0⟩ ⟨K, 0⟩ = .ok D ∧
+      Tracks D (fun t' => val (bsLookbackPrice s m t' v K)) t :=
+  lookback_price_dual_curve (θ := t) (tracks_const s) tracks_var' (tracks_const v) ht hv m K
+
+theorem lookback_price_dual_spot {S : ℝ} (m : ℝ) (hS : 0 < S) (hK : 0 < K) (ht : 0 < t)
+    (hv : 0 < v) :
+    ∃ D, bsLookbackPrice (log ((⟨S, 1⟩ : Dual ℝ) / ⟨K, 0⟩)) ⟨m, 0⟩ ⟨t, 0⟩ ⟨v, 0⟩ ⟨K, 0⟩ = .ok D ∧
+      Tracks D (fun S' => val (bsLookbackPrice (Real.log (S' / K)) m t v K)) S :=
+  lookback_price_dual_curve (tracks_logMoneyness hS hK) (tracks_const t) (tracks_const v) ht hv m K
+
+/-- **the lookback delta computed by `autogreek.delta`**: the model's `price` evaluated at the spot
+`⟨S, 1⟩` (entering as `log (spot / strike)`) succeeds, its primal part is the price and its ε-part
+is `∂price/∂S` -/
+theorem lookback_autogreek_delta {S : ℝ} (m : ℝ) (hS : 0 < S) (hK : 0 < K) (ht : 0 < t)
+    (hv : 0 < v) :
+    ∃ D, bsLookbackPrice (log ((⟨S, 1⟩ : Dual ℝ) / ⟨K, 0⟩)) ⟨m, 0⟩ ⟨t, 0⟩ ⟨v, 0⟩ ⟨K, 0⟩ = .ok D ∧
+      D.val = val (bsLookbackPrice (Real.log (S / K)) m t v K) ∧
+      HasDerivAt (fun S' => val (bsLookbackPrice (Real.log (S' / K)) m t v K)) D.eps S ∧
+      deriv (fun S' => val (bsLookbackPrice (Real.log (S' / K)) m t v K)) S = D.eps := by
+  obtain ⟨D, h1, h2⟩ := lookback_price_dual_spot m hS hK ht hv
+  exact ⟨D, h1, h2.1, h2.2, h2.2.deriv⟩
+
+/-- the lookback vega computed by `autogreek.vega` -/
+theorem lookback_autogreek_vega (s m K : ℝ) (ht : 0 < t) (hv : 0 < v) :
+    ∃ D, bsLookbackPrice (⟨s, 0⟩ : Dual ℝ) ⟨m, 0⟩ ⟨t, 0⟩ ⟨v, 1⟩ ⟨K, 0⟩ = .ok D ∧
+      D.val = val (bsLookbackPrice s m t v K) ∧
+      HasDerivAt (fun v' => val (bsLookbackPrice s m t v' K)) D.eps v ∧
+      deriv (fun v' => val (bsLookbackPrice s m t v' K)) v = D.eps := by
+  obtain ⟨D, h1, h2⟩ := lookback_price_dual_v s m K ht hv
+  exact ⟨D, h1, h2.1, h2.2, h2.2.deriv⟩
+
+/-- the lookback theta computed by `autogreek.theta` is `−ε` -/
+theorem lookback_autogreek_theta (s m K : ℝ) (ht : 0 < t) (hv : 0 < v) :
+    ∃ D, bsLookbackPrice (⟨s, 0⟩ : Dual ℝ) ⟨m, 0⟩ ⟨t, 1⟩ ⟨v, 0⟩ ⟨K, 0⟩ = .ok D ∧
+      D.val = val (bsLookbackPrice s m t v K) ∧
+      HasDerivAt (fun t' => val (bsLookbackPrice s m t' v K)) D.eps t ∧
+      -deriv (fun t' => val (bsLookbackPrice s m t' v K)) t = -D.eps := by
+  obtain ⟨D, h1, h2⟩ := lookback_price_dual_t s m K ht hv
+  exact ⟨D, h1, h2.1, h2.2, by rw [h2.2.deriv]⟩
+
+end seeded
+
+end PfVerif.C08Dual
+
+/-! ## second order: `Dual (Dual ℝ)` -/
+
+namespace PfVerif.C08DualAux
+open PfVerif Transc Filter Topology PfVerif.BSCalc PfVerif.C08Aux
+
+/-- `DD : Dual (Dual ℝ)` carries the value, the first derivative (in both mixed slots) and the
+second derivative of `f` at `θ`: its outer-primal part tracks `f`, its outer-ε part tracks a
+function `f'` that is the derivative of `f` in a neighbourhood of `θ` -/
+def Tracks2 (DD : Dual (Dual ℝ)) (f : ℝ → ℝ) (θ : ℝ) : Prop :=
+  ∃ f' : ℝ → ℝ, (∀ᶠ x in 𝓝 θ, HasDerivAt f (f' x) x) ∧ Tracks DD.val f θ ∧ Tracks DD.eps f' θ
+
+/-- a real constant at second order -/
+def lift2 (c : ℝ) : Dual (Dual ℝ) := ⟨⟨c, 0⟩, ⟨0, 0⟩⟩
+
+/-- the differentiation variable at second order (seeded in both levels) -/
+def var2 (x : ℝ) : Dual (Dual ℝ) := ⟨⟨x, 1⟩, ⟨1, 0⟩⟩
+
+section closure2
+variable {θ : ℝ} {A B DD : Dual (Dual ℝ)} {f g : ℝ → ℝ}
+
+theorem Tracks2.fst (h : Tracks2 DD f θ) : Tracks DD.val f θ := h.choose_spec.2.1
+
+theorem Tracks2.deriv_eventuallyEq (h : Tracks2 DD f θ) :
+    ∃ f', deriv f =ᶠ[𝓝 θ] f' ∧ Tracks DD.eps f' θ := by
+  obtain ⟨f', ef, _, hf'⟩ := h
+  exact ⟨f', ef.mono fun x hx => hx.deriv, hf'⟩
+
+/-- the outer-ε part tracks the derivative of `f`: `.eps.val = f'(θ)`, `.eps.eps = f''(θ)` -/
+theorem Tracks2.snd (h : Tracks2 DD f θ) : Tracks DD.eps (deriv f) θ := by
+  obtain ⟨f', e, hf'⟩ := h.deriv_eventuallyEq
+  exact hf'.congr_eventually e
+
+/-- the formulation with two first-order `Tracks` statements -/
+theorem Tracks2.spec (h : Tracks2 DD f θ) :
+    Tracks ⟨DD.val.val, DD.val.eps⟩ f θ ∧ Tracks ⟨DD.eps.val, DD.eps.eps⟩ (deriv f) θ :=
+  ⟨h.fst, h.snd⟩
+
+theorem Tracks2.val_val (h : Tracks2 DD f θ) : DD.val.val = f θ := h.fst.1
+theorem Tracks2.val_eps (h : Tracks2 DD f θ) : DD.val.eps = deriv f θ := h.fst.2.deriv.symm
+theorem Tracks2.eps_val (h : Tracks2 DD f θ) : DD.eps.val = deriv f θ := h.snd.1
+/-- the `.eps.eps` part is the second derivative -/
+theorem Tracks2.hasDerivAt_deriv (h : Tracks2 DD f θ) : HasDerivAt (deriv f) DD.eps.eps θ := h.snd.2
+theorem Tracks2.eps_eps (h : Tracks2 DD f θ) : DD.eps.eps = deriv (deriv f) θ :=
+  h.snd.2.deriv.symm
+
+theorem Tracks2.congr_eventually (h : Tracks2 DD f θ) (e : g =ᶠ[𝓝 θ] f) : Tracks2 DD g θ := by
+  obtain ⟨f', ef, hf, hf'⟩ := h
+  refine ⟨f', ?_, hf.congr_eventually e, hf'⟩
+  filter_upwards [ef, e.eventually_nhds] with x h1 h2 using h1.congr_of_eventuallyEq h2
+
+theorem tracks2_lift (c : ℝ) : Tracks2 (lift2 c) (fun _ => c) θ :=
+  ⟨fun _ => 0, Eventually.of_forall fun x => hasDerivAt_const x c, tracks_const c, tracks_const 0⟩
+
+theorem tracks2_var : Tracks2 (var2 θ) (fun x => x) θ :=
+  ⟨fun _ => 1, Eventually.of_forall fun x => hasDerivAt_id x, tracks_var', tracks_const 1⟩
+
+theorem tracks2_one : Tracks2 (1 : Dual (Dual ℝ)) (fun _ => (1 : ℝ)) θ :=
+  ⟨fun _ => 0, Eventually.of_forall fun x => hasDerivAt_const x 1, tracks_one, tracks_zero⟩
+
+theorem tracks2_two : Tracks2 (2 : Dual (Dual ℝ)) (fun _ => (2 : ℝ)) θ :=
+  ⟨fun _ => 0, Eventually.of_forall fun x => hasDerivAt_const x 2, tracks_ofNat 2, tracks_zero⟩
+
+theorem Tracks2.add (ha : Tracks2 A f θ) (hb : Tracks2 B g θ) :
+    Tracks2 (A + B) (fun x => f x + g x) θ := by
+  obtain ⟨f', ef, hf, hf'⟩ := ha
+  obtain ⟨g', eg, hg, hg'⟩ := hb
+  refine ⟨fun x => f' x + g' x, ?_, hf.add hg, hf'.add hg'⟩
+  filter_upwards [ef, eg] with x h1 h2 using h1.fun_add h2
+
+theorem Tracks2.sub (ha : Tracks2 A f θ) (hb : Tracks2 B g θ) :
+    Tracks2 (A - B) (fun x => f x - g x) θ := by
+  obtain ⟨f', ef, hf, hf'⟩ := ha
+  obtain ⟨g', eg, hg, hg'⟩ := hb
+  refine ⟨fun x => f' x - g' x, ?_, hf.sub hg, hf'.sub hg'⟩
+  filter_upwards [ef, eg] with x h1 h2 using h1.fun_sub h2
+
+theorem Tracks2.mul (ha : Tracks2 A f θ) (hb : Tracks2 B g θ) :
+    Tracks2 (A * B) (fun x => f x * g x) θ := by
+  obtain ⟨f', ef, hf, hf'⟩ := ha
+  obtain ⟨g', eg, hg, hg'⟩ := hb
+  refine ⟨fun x => f' x * g x + f x * g' x, ?_, hf.mul hg, (hf'.mul hg).add (hf.mul hg')⟩
+  filter_upwards [ef, eg] with x h1 h2 using h1.fun_mul h2
+
+theorem Tracks2.div (ha : Tracks2 A f θ) (hb : Tracks2 B g θ) (h0 : g θ ≠ 0) :
+    Tracks2 (A / B) (fun x => f x / g x) θ := by
+  obtain ⟨f', ef, hf, hf'⟩ := ha
+  obtain ⟨g', eg, hg, hg'⟩ := hb
+  refine ⟨fun x => (f' x * g x - f x * g' x) / (g x * g x), ?_, hf.div hg h0,
+    ((hf'.mul hg).sub (hf.mul hg')).div (hg.mul hg) (mul_self_ne_zero.2 h0)⟩
+  filter_upwards [ef, eg, hg.2.continuousAt.eventually_ne h0] with x h1 h2 h3
+  exact (h1.fun_div h2 h3).congr_deriv (by rw [sq])
+
+theorem Tracks2.exp (ha : Tracks2 A f θ) : Tracks2 (exp A) (fun x => Real.exp (f x)) θ := by
+  obtain ⟨f', ef, hf, hf'⟩ := ha
+  refine ⟨fun x => f' x * Real.exp (f x), ?_, hf.exp, hf'.mul hf.exp⟩
+  filter_upwards [ef] with x h1 using h1.exp.congr_deriv (mul_comm _ _)
+
+theorem Tracks2.log (ha : Tracks2 A f θ) (h0 : f θ ≠ 0) :
+    Tracks2 (log A) (fun x => Real.log (f x)) θ := by
+  obtain ⟨f', ef, hf, hf'⟩ := ha
+  refine ⟨fun x => f' x / f x, ?_, hf.log h0, hf'.div hf h0⟩
+  filter_upwards [ef, hf.2.continuousAt.eventually_ne h0] with x h1 h2 using h1.log h2
+
+theorem Tracks2.sqrt (ha : Tracks2 A f θ) (h0 : 0 < f θ) :
+    Tracks2 (sqrt A) (fun x => Real.sqrt (f x)) θ := by
+  obtain ⟨f', ef, hf, hf'⟩ := ha
+  refine ⟨fun x => f' x / (2 * Real.sqrt (f x)), ?_, hf.sqrt h0.ne',
+    hf'.div ((tracks_ofNat 2).mul (hf.sqrt h0.ne'))
+      (mul_pos two_pos (Real.sqrt_pos.2 h0)).ne'⟩
+  filter_upwards [ef, hf.2.continuousAt.eventually_ne h0.ne'] with x h1 h2 using h1.sqrt h2
+
+theorem Tracks2.ncdf (ha : Tracks2 A f θ) : Tracks2 (ncdf A) (fun x => Phi (f x)) θ := by
+  obtain ⟨f', ef, hf, hf'⟩ := ha
+  refine ⟨fun x => f' x * phi (f x), ?_, hf.ncdf, hf'.mul hf.npdf⟩
+  filter_upwards [ef] with x h1
+  exact ((Phi_hasDerivAt (f x)).comp x h1).congr_deriv (mul_comm _ _)
+
+theorem Tracks2.npdf (ha : Tracks2 A f θ) : Tracks2 (npdf A) (fun x => phi (f x)) θ := by
+  obtain ⟨f', ef, hf, hf'⟩ := ha
+  refine ⟨fun x => -(f' x * (f x * phi (f x))), ?_, hf.npdf, (hf'.mul (hf.mul hf.npdf)).neg⟩
+  filter_upwards [ef] with x h1
+  exact ((phi_hasDerivAt (f x)).comp x h1).congr_deriv (by ring)
+
+end closure2
+
+/-! ### guards and closed forms at `Dual (Dual ℝ)` -/
+
+theorem guards_dual2 {T V : Dual (Dual ℝ)} (ht : 0 < T.val.val) (hv : 0 < V.val.val) :
+    Guards T V := by
+  constructor
+  · have h1 : (0 : Dual (Dual ℝ)) ≤ T := show (0 : ℝ) ≤ T.val.val from ht.le
+    have h2 : (0 : Dual (Dual ℝ)) ≤ V := show (0 : ℝ) ≤ V.val.val from hv.le
+    simp [bsValidate, h1, h2]
+  · have hw : 0 < V.val.val * Real.sqrt T.val.val := w_pos ht hv
+    have h0 : ¬ (V * sqrt T ≤ 0) := fun h =>
+      absurd (show V.val.val * Real.sqrt T.val.val ≤ 0 from h) (not_le.2 hw)
+    simp [isZero, h0]
+
+section tracks2
+variable {θ : ℝ} {S T V Kd M : Dual (Dual ℝ)} {sf tf vf kf mf : ℝ → ℝ}
+
+theorem eventually_pos2 (hT : Tracks2 T tf θ) (hV : Tracks2 V vf θ) (ht : 0 < tf θ)
+    (hv : 0 < vf θ) : ∀ᶠ x in 𝓝 θ, 0 < tf x ∧ 0 < vf x :=
+  eventually_pos hT.fst hV.fst ht hv
+
+theorem guards_of_tracks2 (hT : Tracks2 T tf θ) (hV : Tracks2 V vf θ) (ht : 0 < tf θ)
+    (hv : 0 < vf θ) : Guards T V :=
+  guards_dual2 (by rw [hT.val_val]; exact ht) (by rw [hV.val_val]; exact hv)
+
+theorem tracks2_wE (hT : Tracks2 T tf θ) (hV : Tracks2 V vf θ) (ht : 0 < tf θ) :
+    Tracks2 (wE T V) (fun x => wE (tf x) (vf x)) θ :=
+  hV.mul (hT.sqrt ht)
+
+theorem tracks2_d1E (hS : Tracks2 S sf θ) (hT : Tracks2 T tf θ) (hV : Tracks2 V vf θ)
+    (ht : 0 < tf θ) (hv : 0 < vf θ) :
+    Tracks2 (d1E S T V) (fun x => d1E (sf x) (tf x) (vf x)) θ :=
+  (hS.div (tracks2_wE hT hV ht) (wE_ne ht hv)).add
+    ((tracks2_wE hT hV ht).div tracks2_two two_ne_zero)
+
+theorem tracks2_d2E (hS : Tracks2 S sf θ) (hT : Tracks2 T tf θ) (hV : Tracks2 V vf θ)
+    (ht : 0 < tf θ) (hv : 0 < vf θ) :
+    Tracks2 (d2E S T V) (fun x => d2E (sf x) (tf x) (vf x)) θ :=
+  (hS.div (tracks2_wE hT hV ht) (wE_ne ht hv)).sub
+    ((tracks2_wE hT hV ht).div tracks2_two two_ne_zero)
+
+theorem tracks2_euroE (hS : Tracks2 S sf θ) (hT : Tracks2 T tf θ) (hV : Tracks2 V vf θ)
+    (hK : Tracks2 Kd kf θ) (ht : 0 < tf θ) (hv : 0 < vf θ) (call : Bool) :
+    Tracks2 (euroE S T V Kd call) (fun x => euroE (sf x) (tf x) (vf x) (kf x) call) θ := by
+  have h1 := (tracks2_d1E hS hT hV ht hv).ncdf
+  have h2 := (tracks2_d2E hS hT hV ht hv).ncdf
+  have hc := ((hS.exp.mul hK).mul h1).sub (hK.mul h2)
+  cases call
+  · exact hc.add (hK.mul (tracks2_one.sub hS.exp))
+  · exact hc
+
+theorem tracks2_binE (hS : Tracks2 S sf θ) (hT : Tracks2 T tf θ) (hV : Tracks2 V vf θ)
+    (ht : 0 < tf θ) (hv : 0 < vf θ) (call : Bool) :
+    Tracks2 (binE S T V call) (fun x => binE (sf x) (tf x) (vf x) call) θ := by
+  have h2 := (tracks2_d2E hS hT hV ht hv).ncdf
+  cases call
+  · exact tracks2_one.sub h2
+  · exact h2
+
+theorem tracks2_amE (hS : Tracks2 S sf θ) (hT : Tracks2 T tf θ) (hV : Tracks2 V vf θ)
+    (ht : 0 < tf θ) (hv : 0 < vf θ) :
+    Tracks2 (amE S T V) (fun x => amE (sf x) (tf x) (vf x)) θ :=
+  (tracks2_d2E hS hT hV ht hv).ncdf.add (hS.exp.mul (tracks2_d1E hS hT hV ht hv).ncdf)
+
+theorem tracks2_lbBracket {A : Dual (Dual ℝ)} {af : ℝ → ℝ} (hA : Tracks2 A af θ)
+    (hT : Tracks2 T tf θ) (hV : Tracks2 V vf θ) (ht : 0 < tf θ) (hv : 0 < vf θ) :
+    Tracks2 (ncdf (d1E A T V) + (A + wE T V * wE T V / 2) * ncdf (d1E A T V)
+        + wE T V * npdf (d1E A T V))
+      (fun x => ncdf (d1E (af x) (tf x) (vf x))
+        + (af x + wE (tf x) (vf x) * wE (tf x) (vf x) / 2) * ncdf (d1E (af x) (tf x) (vf x))
+        + wE (tf x) (vf x) * npdf (d1E (af x) (tf x) (vf x))) θ := by
+  have hd := tracks2_d1E hA hT hV ht hv
+  have hw := tracks2_wE hT hV ht
+  exact (hd.ncdf.add ((hA.add ((hw.mul hw).div tracks2_two two_ne_zero)).mul hd.ncdf)).add
+    (hw.mul hd.npdf)
+
+theorem tracks2_lb0E (hS : Tracks2 S sf θ) (hT : Tracks2 T tf θ) (hV : Tracks2 V vf θ)
+    (hK : Tracks2 Kd kf θ) (ht : 0 < tf θ) (hv : 0 < vf θ) :
+    Tracks2 (lb0E S T V Kd) (fun x => lb0E (sf x) (tf x) (vf x) (kf x)) θ :=
+  ((hS.exp.mul hK).mul (tracks2_lbBracket hS hT hV ht hv)).sub
+    (hK.mul (tracks2_d2E hS hT hV ht hv).ncdf)
+
+theorem tracks2_lb1E (hS : Tracks2 S sf θ) (hM : Tracks2 M mf θ) (hT : Tracks2 T tf θ)
+    (hV : Tracks2 V vf θ) (hK : Tracks2 Kd kf θ) (ht : 0 < tf θ) (hv : 0 < vf θ) :
+    Tracks2 (lb1E S M T V Kd) (fun x => lb1E (sf x) (mf x) (tf x) (vf x) (kf x)) θ :=
+  (((hS.exp.mul hK).mul (tracks2_lbBracket (hS.sub hM) hT hV ht hv)).sub hK).add
+    ((hM.exp.mul hK).mul (tracks2_one.sub (tracks2_d2E (hS.sub hM) hT hV ht hv).ncdf))
+
+end tracks2
+
+/-- the spot seeded at both levels enters the pricers as `log (spot / strike)` -/
+theorem tracks2_logMoneyness {S K : ℝ} (hS : 0 < S) (hK : 0 < K) :
+    Tracks2 (log (var2 S / lift2 K)) (fun S' => Real.log (S' / K)) S :=
+  (tracks2_var.div (tracks2_lift K) hK.ne').log (div_pos hS hK).ne'
+
+end PfVerif.C08DualAux
+
+namespace PfVerif.C08Dual
+open PfVerif Transc Filter Topology PfVerif.BSCalc PfVerif.C08Aux PfVerif.C08DualAux
+
+/-! ### second order: `Dual (Dual ℝ)` carries the second derivative in `.eps.eps`
+
+`Tracks2 DD f θ` (C08DualAux) implies `Tracks2.spec`:
+`Tracks ⟨DD.val.val, DD.val.eps⟩ f θ ∧ Tracks ⟨DD.eps.val, DD.eps.eps⟩ (deriv f) θ`. -/
+
+section curve2
+variable {θ : ℝ} {S T V Kd : Dual (Dual ℝ)} {sf tf vf kf : ℝ → ℝ}
+
+theorem european_price_dual2_curve (hS : Tracks2 S sf θ) (hT : Tracks2 T tf θ)
+    (hV : Tracks2 V vf θ) (hK : Tracks2 Kd kf θ) (ht : 0 < tf θ) (hv : 0 < vf θ) (call : Bool) :
+    ∃ DD, bsEuropeanPrice S T V Kd call = .ok DD ∧
+      Tracks2 DD (fun x => val (bsEuropeanPrice (sf x) (tf x) (vf x) (kf x) call)) θ := by
+  refine ⟨_, european_eq (guards_of_tracks2 hT hV ht hv) S Kd call,
+    (tracks2_euroE hS hT hV hK ht hv call).congr_eventually ?_⟩
+  filter_upwards [eventually_pos2 hT hV ht hv] with x hx
+  exact val_european hx.1 hx.2 _ _ _
+
+theorem binary_price_dual2_curve (hS : Tracks2 S sf θ) (hT : Tracks2 T tf θ)
+    (hV : Tracks2 V vf θ) (ht : 0 < tf θ) (hv : 0 < vf θ) (call : Bool) :
+    ∃ DD, bsBinaryPrice S T V call = .ok DD ∧
+      Tracks2 DD (fun x => val (bsBinaryPrice (sf x) (tf x) (vf x) call)) θ := by
+  refine ⟨_, binary_eq (guards_of_tracks2 hT hV ht hv) S call,
+    (tracks2_binE hS hT hV ht hv call).congr_eventually ?_⟩
+  filter_upwards [eventually_pos2 hT hV ht hv] with x hx
+  exact val_binary hx.1 hx.2 _ _
+
+theorem american_price_dual2_curve (hS : Tracks2 S sf θ) (hT : Tracks2 T tf θ)
+    (hV : Tracks2 V vf θ) (ht : 0 < tf θ) (hv : 0 < vf θ) {m : ℝ} (hm : m < 0) :
+    ∃ DD, bsAmericanBinaryPrice S (lift2 m) T V = .ok DD ∧
+      Tracks2 DD (fun x => val (bsAmericanBinaryPrice (sf x) m (tf x) (vf x))) θ := by
+  have hm' : lift2 m < 0 := hm
+  refine ⟨_, by rw [american_eq (guards_of_tracks2 hT hV ht hv), if_pos hm'],
+    (tracks2_amE hS hT hV ht hv).congr_eventually ?_⟩
+  filter_upwards [eventually_pos2 hT hV ht hv] with x hx
+  rw [val_american hx.1 hx.2, if_pos hm]
+
+theorem lookback_price_dual2_curve (hS : Tracks2 S sf θ) (hT : Tracks2 T tf θ)
+    (hV : Tracks2 V vf θ) (ht : 0 < tf θ) (hv : 0 < vf θ) (m K : ℝ) :
+    ∃ DD, bsLookbackPrice S (lift2 m) T V (lift2 K) = .ok DD ∧
+      Tracks2 DD (fun x => val (bsLookbackPrice (sf x) m (tf x) (vf x) K)) θ := by
+  rw [lookback_eq (guards_of_tracks2 hT hV ht hv)]
+  by_cases hb : Real.exp m * K < K
+  · have hb' : exp (lift2 m) * lift2 K < lift2 K := hb
+    rw [if_pos hb']
+    refine ⟨_, rfl, (tracks2_lb0E hS hT hV (tracks2_lift K) ht hv).congr_eventually ?_⟩
+    filter_upwards [eventually_pos2 hT hV ht hv] with x hx
+    rw [val_lookback hx.1 hx.2, if_pos hb]
+  · have hb' : ¬ exp (lift2 m) * lift2 K < lift2 K := hb
+    rw [if_neg hb']
+    refine ⟨_, rfl,
+      (tracks2_lb1E hS (tracks2_lift m) hT hV (tracks2_lift K) ht hv).congr_eventually ?_⟩
+    filter_upwards [eventually_pos2 hT hV ht hv] with x hx
+    rw [val_lookback hx.1 hx.2, if_neg hb]
+
+end curve2
+
+section seeded2
+variable {S K t v m : ℝ}
+
+/-- seeding the log-moneyness at both levels: `.eps.eps` is `∂²price/∂s²` -/
+theorem european_price_dual2_s (s K : ℝ) (ht : 0 < t) (hv : 0 < v) (call : Bool) :
+    ∃ DD, bsEuropeanPrice (var2 s) (lift2 t) (lift2 v) (lift2 K) call = .ok DD ∧
+      Tracks2 DD (fun s' => val (bsEuropeanPrice s' t v K call)) s :=
+  european_price_dual2_curve tracks2_var (tracks2_lift t) (tracks2_lift v) (tracks2_lift K) ht hv
+    call
+
+/-- what `autogreek.gamma` does: the spot seeded at both levels enters as `log (spot / strike)` -/
+theorem european_price_dual2_spot (hS : 0 < S) (hK : 0 < K) (ht : 0 < t) (hv : 0 < v)
+    (call : Bool) :
+    ∃ DD, bsEuropeanPrice (log (var2 S / lift2 K)) (lift2 t) (lift2 v) (lift2 K) call = .ok DD ∧
+      Tracks2 DD (fun S' => val (bsEuropeanPrice (Real.log (S' / K)) t v K call)) S :=
+  european_price_dual2_curve (tracks2_logMoneyness hS hK) (tracks2_lift t) (tracks2_lift v)
+    (tracks2_lift K) ht hv call
+
+/-- **autogreek gamma = closed-form gamma**; the two mixed slots both hold the closed-form delta -/
+theorem european_autogreek_gamma (hS : 0 < S) (hK : 0 < K) (ht : 0 < t) (hv : 0 < v)
+    (call : Bool) :
+    ∃ DD, bsEuropeanPrice (log (var2 S / lift2 K)) (lift2 t) (lift2 v) (lift2 K) call = .ok DD ∧
+      DD.val.val = val (bsEuropeanPrice (Real.log (S / K)) t v K call) ∧
+      DD.val.eps = val (bsEuropeanDelta (Real.log (S / K)) t v call) ∧
+      DD.eps.val = val (bsEuropeanDelta (Real.log (S / K)) t v call) ∧
+      DD.eps.eps = val (bsEuropeanGamma (Real.log (S / K)) t v K) := by
+  obtain ⟨DD, h1, h2⟩ := european_price_dual2_spot hS hK ht hv call
+  have hd := (C08.european_delta hS hK ht hv call).deriv
+  refine ⟨DD, h1, h2.val_val, ?_, ?_, ?_⟩
+  · rw [h2.val_eps, hd]
+  · rw [h2.eps_val, hd]
+  · exact h2.hasDerivAt_deriv.unique (C08.european_gamma_second hS hK ht hv call)
+
+theorem binary_price_dual2_spot (hS : 0 < S) (hK : 0 < K) (ht : 0 < t) (hv : 0 < v)
+    (call : Bool) :
+    ∃ DD, bsBinaryPrice (log (var2 S / lift2 K)) (lift2 t) (lift2 v) call = .ok DD ∧
+      Tracks2 DD (fun S' => val (bsBinaryPrice (Real.log (S' / K)) t v call)) S :=
+  binary_price_dual2_curve (tracks2_logMoneyness hS hK) (tracks2_lift t) (tracks2_lift v) ht hv call
+
+/-- autogreek gamma of the binary = the repaired closed-form gamma (`w = v√t`) -/
+theorem binary_autogreek_gamma (hS : 0 < S) (hK : 0 < K) (ht : 0 < t) (hv : 0 < v)
+    (call : Bool) :
+    ∃ DD, bsBinaryPrice (log (var2 S / lift2 K)) (lift2 t) (lift2 v) call = .ok DD ∧
+      DD.val.val = val (bsBinaryPrice (Real.log (S / K)) t v call) ∧
+      DD.val.eps = val (bsBinaryDelta (Real.log (S / K)) t v K call) ∧
+      DD.eps.val = val (bsBinaryDelta (Real.log (S / K)) t v K call) ∧
+      DD.eps.eps = val (bsBinaryGamma (Real.log (S / K)) t v K call) := by
+  obtain ⟨DD, h1, h2⟩ := binary_price_dual2_spot hS hK ht hv call
+  have hd := (C08.binary_delta hS hK ht hv call).deriv
+  refine ⟨DD, h1, h2.val_val, ?_, ?_, ?_⟩
+  · rw [h2.val_eps, hd]
+  · rw [h2.eps_val, hd]
+  · exact h2.hasDerivAt_deriv.unique (C08.binary_gamma_second hS hK ht hv call)
+
+theorem american_price_dual2_spot (hS : 0 < S) (hK : 0 < K) (ht : 0 < t) (hv : 0 < v)
+    (hm : m < 0) :
+    ∃ DD, bsAmericanBinaryPrice (log (var2 S / lift2 K)) (lift2 m) (lift2 t) (lift2 v) = .ok DD ∧
+      Tracks2 DD (fun S' => val (bsAmericanBinaryPrice (Real.log (S' / K)) m t v)) S :=
+  american_price_dual2_curve (tracks2_logMoneyness hS hK) (tracks2_lift t) (tracks2_lift v) ht hv hm
+
+theorem american_autogreek_gamma (hS : 0 < S) (hK : 0 < K) (ht : 0 < t) (hv : 0 < v)
+    (hm : m < 0) :
+    ∃ DD, bsAmericanBinaryPrice (log (var2 S / lift2 K)) (lift2 m) (lift2 t) (lift2 v) = .ok DD ∧
+      DD.val.val = val (bsAmericanBinaryPrice (Real.log (S / K)) m t v) ∧
+      DD.val.eps = val (bsAmericanBinaryDelta (Real.log (S / K)) m t v K) ∧
+      DD.eps.val = val (bsAmericanBinaryDelta (Real.log (S / K)) m t v K) ∧
+      DD.eps.eps = val (bsAmericanBinaryGamma (Real.log (S / K)) m t v K) := by
+  obtain ⟨DD, h1, h2⟩ := american_price_dual2_spot hS hK ht hv hm
+  have hd := (C08.american_binary_delta hS hK ht hv hm).deriv
+  refine ⟨DD, h1, h2.val_val, ?_, ?_, ?_⟩
+  · rw [h2.val_eps, hd]
+  · rw [h2.eps_val, hd]
+  · exact h2.hasDerivAt_deriv.unique (C08.american_binary_gamma_second hS hK ht hv hm)
+
+theorem lookback_price_dual2_s (s m K : ℝ) (ht : 0 < t) (hv : 0 < v) :
+    ∃ DD, bsLookbackPrice (var2 s) (lift2 m) (lift2 t) (lift2 v) (lift2 K) = .ok DD ∧
+      Tracks2 DD (fun s' => val (bsLookbackPrice s' m t v K)) s :=
+  lookback_price_dual2_curve tracks2_var (tracks2_lift t) (tracks2_lift v) ht hv m K
+
+theorem lookback_price_dual2_spot (m : ℝ) (hS : 0 < S) (hK : 0 < K) (ht : 0 < t) (hv : 0 < v) :
+    ∃ DD, bsLookbackPrice (log (var2 S / lift2 K)) (lift2 m) (lift2 t) (lift2 v) (lift2 K)
+        = .ok DD ∧
+      Tracks2 DD (fun S' => val (bsLookbackPrice (Real.log (S' / K)) m t v K)) S :=
+  lookback_price_dual2_curve (tracks2_logMoneyness hS hK) (tracks2_lift t) (tracks2_lift v) ht hv
+    m K
+
+/-- **the lookback gamma computed by `autogreek.gamma`**: `.eps.eps` of the model's `price` at
+the doubly seeded spot is the second derivative of the price in the spot; the mixed slots are the
+first derivative (the autogreek delta) -/
+theorem lookback_autogreek_gamma (m : ℝ) (hS : 0 < S) (hK : 0 < K) (ht : 0 < t) (hv : 0 < v) :
+    ∃ DD, bsLookbackPrice (log (var2 S / lift2 K)) (lift2 m) (lift2 t) (lift2 v) (lift2 K)
+        = .ok DD ∧
+      DD.val.val = val (bsLookbackPrice (Real.log (S / K)) m t v K) ∧
+      DD.val.eps = deriv (fun S' => val (bsLookbackPrice (Real.log (S' / K)) m t v K)) S ∧
+      DD.eps.val = deriv (fun S' => val (bsLookbackPrice (Real.log (S' / K)) m t v K)) S ∧
+      HasDerivAt (deriv fun S' => val (bsLookbackPrice (Real.log (S' / K)) m t v K)) DD.eps.eps S ∧
+      DD.eps.eps = deriv (deriv fun S' => val (bsLookbackPrice (Real.log (S' / K)) m t v K)) S := by
+  obtain ⟨DD, h1, h2⟩ := lookback_price_dual2_spot m hS hK ht hv
+  exact ⟨DD, h1, h2.val_val, h2.val_eps, h2.eps_val, h2.hasDerivAt_deriv, h2.eps_eps⟩
+
+end seeded2
+
+end PfVerif.C08Dual
+
+/-! ### non-vacuity -/
+
+namespace PfVerif.C08DualAux
+theorem two_val : (2 : Dual ℝ).val = 2 := rfl
+theorem two_eps : (2 : Dual ℝ).eps = 0 := rfl
+end PfVerif.C08DualAux
+
+namespace PfVerif.C08Dual
+open PfVerif Transc Filter Topology PfVerif.BSCalc PfVerif.C08Aux PfVerif.C08DualAux
+
+/-- the dual arithmetic itself: `d1` at `s = 0` seeded, `t = v = 1`, is `⟨1/2, 1⟩`
+(`∂d₁/∂s = 1/(v√t) = 1`) -/
+example : bsD1 (⟨0, 1⟩ : Dual ℝ) ⟨1, 0⟩ ⟨1, 0⟩ = .ok ⟨1 / 2, 1⟩ := by
+  rw [bsD1_eq (guards_dual one_pos one_pos)]
+  congr 1
+  ext <;> simp [d1E, wE, two_val, two_eps]
+
+/-- at the money, `S = K = t = v = 1`: the autogreek delta of the call is `Φ(1/2)` -/
+example :
+    ∃ D, bsEuropeanPrice (log ((⟨1, 1⟩ : Dual ℝ) / ⟨1, 0⟩)) ⟨1, 0⟩ ⟨1, 0⟩ ⟨1, 0⟩ true = .ok D ∧
+      D.eps = Phi (1 / 2) := by
+  obtain ⟨D, h1, _, h3⟩ := european_autogreek_delta (S := 1) (K := 1) (t := 1) (v := 1)
+    one_pos one_pos one_pos one_pos true
+  refine ⟨D, h1, ?_⟩
+  rw [h3, european_delta_ok one_pos one_pos]
+  simp [d1]
+
+/-- … and its autogreek gamma (`.eps.eps` at `Dual (Dual ℝ)`) is `φ(1/2)` -/
+example :
+    ∃ DD, bsEuropeanPrice (log (var2 1 / lift2 1)) (lift2 1) (lift2 1) (lift2 1) true = .ok DD ∧
+      DD.eps.eps = phi (1 / 2) := by
+  obtain ⟨DD, h1, _, _, _, h5⟩ := european_autogreek_gamma (S := 1) (K := 1) (t := 1) (v := 1)
+    one_pos one_pos one_pos one_pos true
+  refine ⟨DD, h1, ?_⟩
+  rw [h5, european_gamma_ok one_pos one_pos]
+  simp [d1]
+
+/-- lookback call at `S = K = 1`, running maximum at the strike (`m = 0`, second branch),
+`t = v = 1`: the dual evaluation succeeds and the autogreek delta is `5/2 Φ(1/2) + φ(1/2)` -/
+example :
+    ∃ D, bsLookbackPrice (log ((⟨1, 1⟩ : Dual ℝ) / ⟨1, 0⟩)) ⟨0, 0⟩ ⟨1, 0⟩ ⟨1, 0⟩ ⟨1, 0⟩ = .ok D ∧
+      HasDerivAt (fun S' => val (bsLookbackPrice (Real.log (S' / 1)) 0 1 1 1)) D.eps 1 ∧
+      D.eps = 5 / 2 * Phi (1 / 2) + phi (1 / 2) := by
+  obtain ⟨D, h1, _, h3, _⟩ := lookback_autogreek_delta (S := 1) (K := 1) (t := 1) (v := 1) 0
+    one_pos one_pos one_pos one_pos
+  refine ⟨D, h1, h3, ?_⟩
+  rw [lookback_eq (guards_dual one_pos one_pos)] at h1
+  have hb : ¬ exp (⟨0, 0⟩ : Dual ℝ) * ⟨1, 0⟩ < (⟨1, 0⟩ : Dual ℝ) := by
+    show ¬ Real.exp 0 * 1 < 1
+    simp
+  rw [if_neg hb] at h1
+  cases h1
+  simp [lb1E, d1E, d2E, wE, two_val, two_eps, phi_neg]
+  ring
+
+/-- the same point with the running maximum below the strike (`m = −1`, first branch): the spot
+derivative is the same number (the two branch formulas differ by a function of `m` only there) -/
+example :
+    ∃ D, bsLookbackPrice (log ((⟨1, 1⟩ : Dual ℝ) / ⟨1, 0⟩)) ⟨-1, 0⟩ ⟨1, 0⟩ ⟨1, 0⟩ ⟨1, 0⟩ = .ok D ∧
+      HasDerivAt (fun S' => val (bsLookbackPrice (Real.log (S' / 1)) (-1) 1 1 1)) D.eps 1 ∧
+      D.eps = 5 / 2 * Phi (1 / 2) + phi (1 / 2) := by
+  obtain ⟨D, h1, _, h3, _⟩ := lookback_autogreek_delta (S := 1) (K := 1) (t := 1) (v := 1) (-1)
+    one_pos one_pos one_pos one_pos
+  refine ⟨D, h1, h3, ?_⟩
+  rw [lookback_eq (guards_dual one_pos one_pos)] at h1
+  have hb : exp (⟨-1, 0⟩ : Dual ℝ) * ⟨1, 0⟩ < (⟨1, 0⟩ : Dual ℝ) := by
+    show Real.exp (-1) * 1 < 1
+    simp
+  rw [if_pos hb] at h1
+  cases h1
+  simp [lb0E, d1E, d2E, wE, two_val, two_eps, phi_neg]
+  ring
+
+/-- autogreek vega of the at-the-money call, `t = v = K = 1`: `φ(1/2)` -/
+example :
+    ∃ D, bsEuropeanPrice (⟨0, 0⟩ : Dual ℝ) ⟨1, 0⟩ ⟨1, 1⟩ ⟨1, 0⟩ true = .ok D ∧
+      D.eps = phi (1 / 2) := by
+  obtain ⟨D, h1, _, h3⟩ := european_autogreek_vega (t := 1) (v := 1) 0 1 one_pos one_pos true
+  refine ⟨D, h1, ?_⟩
+  rw [h3, european_vega_ok one_pos one_pos]
+  simp [d1]
+
+/-- after the hit (`m = 0`) the American binary is the constant one with ε = 0 even when the
+log-moneyness is seeded -/
+example : bsAmericanBinaryPrice (⟨0, 1⟩ : Dual ℝ) ⟨0, 0⟩ ⟨1, 0⟩ ⟨1, 0⟩ = .ok ⟨1, 0⟩ :=
+  american_price_dual_after_hit one_pos one_pos le_rfl
 
 end PfVerif.C08Dual
